@@ -1214,3 +1214,44 @@ def ceval(n, env, types=None):
     if k == "ConditionalOperator":
         return ceval(n["c"][1], env, types) if ceval(n["c"][0], env, types) else ceval(n["c"][2], env, types)
     raise NotConst(k)
+
+
+# --------------------------------------------------------------------------- value kinds of dt_dt_s
+SANDWICH_KINDS = {"date only": {"sandwich": 0, "typ": 1}, "time only": {"sandwich": 1, "typ": 0}, "date and time": {"sandwich": 1, "typ": 1}}
+
+
+def _subst_named_members(e, vals):
+    if e is None:
+        return None
+    if e.get("k") == "MemberExpr" and e.get("n") in vals:
+        return {"k": "IntegerLiteral", "v": vals[e["n"]], "t": e.get("t")}
+    o = dict(e)
+    if "c" in e:
+        o["c"] = [_subst_named_members(c, vals) if c is not None else None for c in e["c"]]
+    return o
+
+
+def sandwich_pred_value(tu, cond, vals):
+    """truth of a condition built from the dt_sandwich_*_p predicates (and !, &&, ||) for one kind of value; the predicates'
+    own return expressions are folded with the members `sandwich` and `typ` set as in SANDWICH_KINDS; None if not decodable"""
+    c = strip(cond)
+    if c is not None and c.get("k") == "UnaryOperator" and c.get("op") == "!":
+        v = sandwich_pred_value(tu, c["c"][0], vals)
+        return None if v is None else (not v)
+    if c is not None and c.get("k") == "BinaryOperator" and c.get("op") in ("&&", "||"):
+        a, b = sandwich_pred_value(tu, c["c"][0], vals), sandwich_pred_value(tu, c["c"][1], vals)
+        if a is None or b is None:
+            return None
+        return (a and b) if c["op"] == "&&" else (a or b)
+    if c is not None and c.get("k") == "CallExpr":
+        f = tu.func(c.get("callee"))
+        if f is None:
+            return None
+        rets = [r for r in f.walk() if r.get("k") == "ReturnStmt" and kids(r)]
+        if len(rets) != 1:
+            return None
+        try:
+            return bool(ceval(_subst_named_members(kids(rets[0])[0], vals), {}, tu.types))
+        except NotConst:
+            return None
+    return None
